@@ -237,8 +237,20 @@ namespace igris
 
         void push_back(const T &ref)
         {
-            reserve(m_size + 1);
-            igris::constructor(m_data + m_size, ref);
+            if (m_size + 1 > m_capacity)
+            {
+                // ref may be an element of this vector: copy it before the old block is released
+                alignas(T) unsigned char tmpbuf[sizeof(T)];
+                T *tmp = reinterpret_cast<T *>(tmpbuf);
+                igris::constructor(tmp, ref);
+                reserve(m_size + 1);
+                igris::move_constructor(m_data + m_size, std::move(*tmp));
+                igris::destructor(tmp);
+            }
+            else
+            {
+                igris::constructor(m_data + m_size, ref);
+            }
             m_size++;
         }
 
